@@ -10,6 +10,7 @@ import ast
 from ..callgraph import CallGraph
 from ..escape import EscapeAnalysis
 from ..lattice import Family, ir_family, reaching_classes, class_test
+from ..model import AnalysisError
 from ..model import ClassInfo, FuncInfo, call_name, dotted, own_nodes, unparse
 from ..pathcond import path_info
 
@@ -169,6 +170,8 @@ def run(pm, ctx):
         ctx.rule(r, t)
     cg, reach, extra_edges, entry, irf = build_scope(pm)
     ctx.extra['functions_in_scope'] = len(reach)
+    registry_typestate(pm, ctx)
+    empty_ast_guard(pm, ctx)
 
     implicit = implicit_sites(pm, ctx, reach, irf)
     dead_defaults = {}
@@ -598,6 +601,103 @@ def _arity_validated(f):
 
 
 # ----------------------------------------------------------------------
+def registry_typestate(pm, ctx):
+    """R7: `_item_by_canonical_name` maps a name to *any* top-level AST item
+    (namespace, struct/union definition, route, alias, annotation, annotation
+    type).  A value read back from it may be used through an attribute only
+    some item classes have (`.fields`, `.examples`, `.closed`) only after a
+    test -- in the function or in an earlier call that raises otherwise --
+    that leaves only such classes; else a spec that puts another kind of item
+    under that name raises AttributeError instead of InvalidSpec."""
+    from ..irattrs import IRAttrs
+    from ..irflow import IRFlow
+    ctx.rule('C03-R7', 'canonical-name registry typestate: class-specific attributes of a value '
+                       'read from _item_by_canonical_name are used only under tests (own or of an '
+                       'earlier raising callee) that exclude the item classes lacking them')
+    af = ast_family(pm)
+    GENM = 'stone.frontend.ir_generator'
+    reg = 'self._item_by_canonical_name'
+    # what is stored
+    universe = {}
+    for f in pm.funcs_in(GENM):
+        for n in own_nodes(f.node):
+            if isinstance(n, ast.Assign) and isinstance(n.targets[0], ast.Subscript) and \
+                    unparse(n.targets[0].value) == reg:
+                v = n.value
+                if isinstance(v, ast.Name) and v.id == 'namespace_ast_node':
+                    universe['AstNamespace'] = '%s:%d' % (f.module.relpath, n.lineno)
+                elif isinstance(v, ast.Name) and v.id in f.params:
+                    # every call site of f: classes of that argument there
+                    idx = f.params.index(v.id) - 1
+                    for g in pm.funcs_in(GENM):
+                        for c in own_nodes(g.node):
+                            if isinstance(c, ast.Call) and call_name(c) == f.name and \
+                                    idx < len(c.args):
+                                cs = reaching_classes(pm, af, g, c, unparse(c.args[idx]))
+                                for k in cs:
+                                    universe.setdefault(k, '%s:%d' % (g.module.relpath, c.lineno))
+                else:
+                    raise AnalysisError('anchor=%s (unclassified store into the registry: %s)'
+                                        % (f.qualname, unparse(v)))
+    ctx.floor('C03-R7', len(universe), 5, 'item classes stored in _item_by_canonical_name')
+    if len(universe) == len(af.universe()):
+        raise AnalysisError('anchor=%s (registry universe not narrowed by the call sites)' % reg)
+
+    def hook(flow, f, e, at):
+        if isinstance(e, ast.Subscript) and unparse(e.value) == reg:
+            return dict(universe)
+        return NotImplemented
+    ia = IRAttrs(pm)
+    flow = IRFlow(pm, ia, (GENM,), (), family=af, seed_hook=hook)
+    n = 0
+    for f in flow._all_funcs():
+        for a in own_nodes(f.node):
+            if not (isinstance(a, ast.Attribute) and isinstance(a.ctx, ast.Load)) or \
+                    a.attr.startswith('__'):
+                continue
+            cs = flow.classes_at(f, a, a.value)
+            if not cs or not all(c in af.classes for c in cs):
+                continue
+            n += 1
+            lack = sorted(c for c in cs if a.attr not in ia.attrs_of_class(af.classes[c]))
+            ctx.check('C03-R7', not lack, '%s reads %s.%s' % (f.short, unparse(a.value), a.attr),
+                      '%s:%d' % (f.module.relpath, a.lineno),
+                      msg='%s reads %s.%s where the value, taken from the canonical-name '
+                          'registry, can be %s, which %s no such attribute: AttributeError escapes '
+                          'instead of InvalidSpec' % (f.short, unparse(a.value), a.attr,
+                                                      ', '.join(lack),
+                                                      'has' if len(lack) == 1 else 'have'),
+                      key='C03-R7|%s|%s.%s' % (f.qualname, unparse(a.value), a.attr))
+    ctx.floor('C03-R7', n, 8, 'attribute reads on registry values')
+
+
+def empty_ast_guard(pm, ctx):
+    """R8: IRGenerator indexes `desc[0]` of every partial AST it is given;
+    specs_to_ir must hand over only non-empty ones."""
+    ctx.rule('C03-R8', 'only non-empty partial ASTs reach IRGenerator (it reads desc[0])')
+    fe = pm.func('stone.frontend.frontend.specs_to_ir')
+    pi = path_info(fe.node)
+    apps = [c for c in own_nodes(fe.node) if isinstance(c, ast.Call) and
+            isinstance(c.func, ast.Attribute) and c.func.attr == 'append' and
+            unparse(c.func.value) == 'partial_asts']
+    ok = len(apps) == 1
+    if ok:
+        arg = unparse(apps[0].args[0])
+        conds = [(unparse(e), p) for e, p in pi.at(apps[0])]
+        nonempty = ('len(%s) == 0' % arg, False) in conds or ('len(%s) != 0' % arg, True) in conds \
+            or (arg, True) in conds or ('len(%s) > 0' % arg, True) in conds or \
+            ('not %s' % arg, False) in conds
+        ok = nonempty
+    uses0 = [n for f in pm.funcs_in('stone.frontend.ir_generator') for n in own_nodes(f.node)
+             if isinstance(n, ast.Subscript) and isinstance(n.slice, ast.Constant) and
+             n.slice.value == 0 and isinstance(n.value, ast.Name) and n.value.id == 'desc']
+    ctx.check('C03-R8', ok or not uses0, 'specs_to_ir appends a partial AST only when it is '
+              'non-empty', fe.loc,
+              msg='specs_to_ir can hand an empty partial AST (a file of comments only) to '
+                  'IRGenerator, which reads desc[0]: IndexError escapes',
+              key='C03-R8|%s' % fe.qualname)
+
+
 def ast_family(pm):
     return Family(pm, 'stone.frontend.ast', 'ASTNode', ('ASTNode', 'AstTypeDef'))
 
